@@ -615,6 +615,7 @@ func c12Cases(c *h.Ctx) error {
 			m.Write(k.M)
 			got := m.Sum(nil)
 			c.Exec(1)
+			c.Retain("cmac.cmac.Sum", got, map[string]interface{}{"msg_len": len(k.M)})
 			if !bytes.Equal(got, k.Tag) {
 				c.Fail("cmac.New", "rfc4493", fmt.Sprintf("len %d: RFC %x code %x", len(k.M), []byte(k.Tag), got), map[string]interface{}{"msg_hex": h.Hex(k.M)})
 			}
